@@ -32,7 +32,7 @@ func (c14) Assumptions() []string {
 
 func (c14) Phases(env run.Env) []run.Phase {
 	if env.Thorough {
-		return []run.Phase{{Name: "overwrite-input", N: 25000}, {Name: "scribble-under-race-detector", Race: true, N: 3000}, {Name: "pools", N: 30000}}
+		return []run.Phase{{Name: "overwrite-input", N: 400000}, {Name: "scribble-under-race-detector", Race: true, N: 60000}, {Name: "pools", N: 400000}}
 	}
 	return []run.Phase{{Name: "overwrite-input", N: 1600}, {Name: "scribble-under-race-detector", Race: true, N: 200}, {Name: "pools", N: 2000}}
 }
